@@ -43,7 +43,7 @@ func checkC18(c *Ctx) {
 	}
 
 	// ---- quorum ------------------------------------------------------------------------------------
-	c.checkQuorumGuard("C18.quorum", reach, func(f *ssa.Function) bool { return c.isProcessFn(f, "oracle") }, "Votes", 66, 100)
+	c.checkQuorumGuard("C18.quorum", reach, "oracle", "Votes", 66, 100)
 	// epoch condition on the apply call
 	for _, f := range sortedFuncs(reach) {
 		if !inPkg(f, "oracle/keeper") {
